@@ -474,9 +474,6 @@ Lemma code_span_configs :
 Proof. vm_compute. reflexivity. Qed.
 
 
-(* what the fragment asks of the span token types: the conditions of the link / emphasis sentences and of the code span *)
-Definition leaf_spans (types : list span_kind) : bool := ref_spans types && code_spans types.
-
 (* the two attributes of the token, by name *)
 Definition code_padded (code : str) : bool := negb (isspace_str code) && startswith [32] code && endswith [32] code.
 Definition code_content (code : str) : str := if code_padded code then removelast (tl code) else code.
